@@ -114,8 +114,12 @@ type histSpec struct {
 	Ops []opSpec `json:"ops"`
 }
 
-var chainRefs = []string{"eth-main", "bnb-main", "gnosis-main"}
-var turnstones = []string{"ts-eth", "ts-bnb", "ts-gno"}
+// matic-main: registered, served by every validator (accounts + relayer fees: selection works), but NOT active --
+// no compass deployed yet (SmartContractAddr and unique id empty)
+var chainRefs = []string{"eth-main", "bnb-main", "gnosis-main", "matic-main"}
+var turnstones = []string{"ts-eth", "ts-bnb", "ts-gno", ""}
+
+const inactiveChain = 3
 
 func unhex(s string) []byte { b, _ := hex.DecodeString(s); return b }
 
@@ -177,6 +181,7 @@ func (e *env) addValidator(ctx sdk.Context, i int, mevEth, feeEth, feeBnb bool) 
 	if feeBnb {
 		fees = append(fees, treasurytypes.RelayerFeeSetting_FeeSetting{Multiplicator: math.LegacyMustNewDecFromStr("1.1"), ChainReferenceId: chainRefs[1]})
 	}
+	fees = append(fees, treasurytypes.RelayerFeeSetting_FeeSetting{Multiplicator: math.LegacyMustNewDecFromStr("1.2"), ChainReferenceId: chainRefs[inactiveChain]})
 	if len(fees) > 0 {
 		if err := e.f.TreasuryKeeper.SetRelayerFee(ctx, op, &treasurytypes.RelayerFeeSetting{ValAddress: op.String(), Fees: fees}); err != nil {
 			return err
@@ -198,6 +203,9 @@ func newEnv(es envSpec) (*env, error) {
 		if err := f.EvmKeeper.SetFeeManagerAddress(ctx, c, "0xb794f5ea0ba39494ce839613fffba74279579268"); err != nil {
 			return nil, err
 		}
+		if i == inactiveChain {
+			continue
+		}
 		if err := f.EvmKeeper.ActivateChainReferenceID(ctx, c, &evmtypes.SmartContract{Id: 123}, "addr", []byte(turnstones[i])); err != nil {
 			return nil, err
 		}
@@ -215,7 +223,7 @@ func newEnv(es envSpec) (*env, error) {
 	f.MetrixKeeper.UpdateUptime(ctx)
 	if snap != nil {
 		for c, ref := range chainRefs {
-			if c < len(es.Publish) && es.Publish[c] {
+			if c < len(es.Publish) && c != inactiveChain && es.Publish[c] {
 				if err := f.ValsetKeeper.SetSnapshotOnChain(ctx, snap.Id, ref); err != nil {
 					return nil, err
 				}
@@ -1348,6 +1356,7 @@ func runHistory(run *emit.Run, hs *histSpec, tag string) (res *histResult, fatal
 							violate("C17:contract-bytes-reinterpreted", fmt.Sprintf("contract %x ran %q through %s with the %d bytes %q: the call carries %x, not those bytes followed by the contract's padded address", contract, op.ID, op.Path, len(in), string(in), it.call.Payload))
 						}
 					}
+					run.Count("ran-on-chain", fmt.Sprintf("%s active=%v", js.CRef, js.CRef != chainRefs[inactiveChain]))
 					base := []byte(js.Payload)
 					usedSupplied := false
 					if !suppliedNil && js.Mod {
@@ -1367,7 +1376,10 @@ func runHistory(run *emit.Run, hs *histSpec, tag string) (res *histResult, fatal
 					} else if len(caller) > 32 {
 						violate("C17:long-caller", fmt.Sprintf("execute of %q by a %d-byte caller succeeded", op.ID, len(caller)))
 					} else if string(it.call.Payload) != string(append(append([]byte{}, want...), leftPad32(caller)...)) {
+						run.Count("last-word-of-effective-payload", fmt.Sprintf("is-caller-word=%v wrong=true", len(want) >= 32 && string(want[len(want)-32:]) == string(leftPad32(caller))))
 						violate("C17:wrong-payload", fmt.Sprintf("job %q requested by %x through %s (supplied used: %v): call payload %x, expected %x ++ pad32(%x)", op.ID, caller, op.Path, usedSupplied, it.call.Payload, want, caller))
+					} else if len(want) >= 32 && string(want[len(want)-32:]) == string(leftPad32(caller)) {
+						run.Count("last-word-of-effective-payload", "is-caller-word, sender word appended once more")
 					}
 				}
 			}
@@ -1487,9 +1499,10 @@ func genEnv(r *rand.Rand) envSpec {
 		es.FeeEth = append(es.FeeEth, mode != 1 && r.Intn(5) != 0)
 		es.FeeBnb = append(es.FeeBnb, mode != 2 && r.Intn(3) != 0)
 	}
-	for range chainRefs {
+	for c := 0; c < 3; c++ {
 		es.Publish = append(es.Publish, r.Intn(3) != 0)
 	}
+	es.Publish = append(es.Publish, false)
 	return es
 }
 
@@ -1649,6 +1662,8 @@ func genHistory(r *rand.Rand, hostile bool) *histSpec {
 		switch r.Intn(24) {
 		case 0, 1:
 			js.CRef = "gnosis-main"
+		case 5, 6, 7:
+			js.CRef = chainRefs[inactiveChain]
 		case 2:
 			js.CRef = "ghost-chain"
 		case 3:
@@ -1660,6 +1675,15 @@ func genHistory(r *rand.Rand, hostile bool) *histSpec {
 			js.Mev = true
 			if r.Intn(6) != 0 {
 				js.CRef = chainRefs[r.Intn(2)]
+				if r.Intn(8) == 0 {
+					js.CRef = chainRefs[inactiveChain]
+				}
+			}
+		}
+		if r.Intn(8) == 0 {
+			js.Payload = string(wrapJSON(append(randAddr(r, []int{0, 4, 36}[r.Intn(3)]), leftPad32(accounts[r.Intn(3)])...)))
+			if r.Intn(2) == 0 {
+				js.Mod = false
 			}
 		}
 		op := opSpec{Kind: "create", Job: js}
@@ -1752,6 +1776,29 @@ func genHistory(r *rand.Rand, hostile bool) *histSpec {
 				op.In = pick(payPool, nGoodPay)
 			default:
 				op.In = string(wrapJSON(randAddr(r, r.Intn(8))))
+			}
+		}
+		// call data whose LAST word is a padded address: the requester's own (f(address beneficiary) run by the
+		// beneficiary, a contract passing itself as last argument), another account's, a contract's
+		if r.Intn(8) == 0 {
+			caller := unhex(op.Sender)
+			if op.Path == "wasm" || op.Path == "legacy" || op.Path == "keeper" && op.SNil {
+				caller = unhex(op.Contract)
+			}
+			word := caller
+			switch r.Intn(5) {
+			case 0:
+				word = accounts[r.Intn(3)]
+			case 1:
+				word = contracts[r.Intn(len(contracts))]
+			}
+			if len(word) <= 32 {
+				data := append(randAddr(r, []int{0, 4, 4, 36, 7}[r.Intn(5)]), leftPad32(word)...)
+				if op.Path == "wasm" || op.Path == "legacy" {
+					op.In = string(data)
+				} else {
+					op.In, op.InNil = string(wrapJSON(data)), false
+				}
 			}
 		}
 		hs.Ops = append(hs.Ops, op)
@@ -1874,6 +1921,8 @@ func TestCorr(t *testing.T) {
 		"Transaction messages pass ValidateBasic and the VerifyAuthorisedSignatureDecorator first (signed by the creator | by another account with / without a fee grant of the creator; a creator without account); " +
 		"contract messages go as JSON through the libwasm router and name a sender of their own choice (absent | junk | own address | another contract | an account); " +
 		"simulate (a job created, looked up and run on a branch that is discarded, then the same id created for real with other content by somebody else and run); " +
+		"1 payload in 8 (stored and supplied, all entry points) ends with a 32-byte padded address: the requester's own, another account's, a contract's; " +
+		"a fourth chain (matic-main) is registered and served by every validator but not active (no compass): jobs target it through all entry points; " +
 		"contract payload BYTES that look like payload documents ({\"hexPayload\":...} with extra members, arrays, null), job definitions, hex strings (0x..., odd length), JSON of other shapes, quotes, NULs, empty; " +
 		"job ids built from other ids and the module's key vocabulary (-runs-<id>, s-runs-<id>, -<word>-<id> created before <id> runs, prefixes / extensions of ids, jobs<id>, generated-ids-<id>, one-character ids); " +
 		"after every operation the raw job-record key space of the store is diffed (nothing may change or go; only the job created by this operation may appear) and every lookup is compared with the store; " +
